@@ -146,7 +146,7 @@ def date_bounds(stat):
 
 
 @st.composite
-def field_constraints(draw, col, n, inside=False):
+def field_constraints(draw, col, n, inside=False, string_bounds=False):
     """Constraints for one existing column, placed around its data."""
     kind = col['kind']
     values = F.py_values(col)
@@ -160,6 +160,11 @@ def field_constraints(draw, col, n, inside=False):
         kinds_avail += ['min', 'max', 'min', 'max']
     elif atype == 'string':
         kinds_avail += ['min_length', 'max_length', 'allowed_values', 'rex']
+        if string_bounds and kind in ('ostr', 'string') and all(
+                isinstance(v, str) for v in nn):
+            # "the minimum / maximum allowed value in a field" also for
+            # text: ordered as Python orders strings
+            kinds_avail += ['min', 'max']
     chosen = draw(st.lists(st.sampled_from(kinds_avail), min_size=1,
                            max_size=5, unique=True))
     if atype == 'date' and ('min' in chosen or 'max' in chosen):
@@ -184,6 +189,13 @@ def field_constraints(draw, col, n, inside=False):
                                          0, 1]))
         elif k == 'no_duplicates':
             c[k] = draw(st.sampled_from([True, True, False]))
+        elif k in ('min', 'max') and atype == 'string':
+            stat = (min(nn) if k == 'min' else max(nn)) if nn else 'm'
+            v = draw(st.sampled_from([stat, stat + 'a', stat[:-1], '',
+                                      '\U0010ffff', 'm', stat.upper(),
+                                      stat + ' ']))
+            prec = draw(st.sampled_from([None, 'closed', 'open', 'open']))
+            c[k] = v if prec is None else {'value': v, 'precision': prec}
         elif k in ('min', 'max'):
             if not nn:
                 stat = (datetime.datetime(2000, 1, 1) if atype == 'date'
@@ -247,12 +259,14 @@ def field_constraints(draw, col, n, inside=False):
 
 
 @st.composite
-def constraint_set(draw, frame, missing_field=True, inside=False):
+def constraint_set(draw, frame, missing_field=True, inside=False,
+                   string_bounds=False):
     fields = {}
     for col in frame['cols']:
         if draw(st.integers(0, 5)) != 0 or len(frame['cols']) == 1:
             fields[col['name']] = draw(field_constraints(col, frame['n'],
-                                                         inside))
+                                                         inside,
+                                                         string_bounds))
     if missing_field and draw(st.integers(0, 4)) == 0:
         name = 'no such field'
         if name not in [c['name'] for c in frame['cols']]:
